@@ -426,6 +426,83 @@ def d4_determinism(ctx):
     ctx.CONST("D4", "srtla_core::connection::QUALITY_CACHE_INTERVAL_MS", 50)
 
 
+def _locals_in(obj, out):
+    if isinstance(obj, dict):
+        if "l" in obj and isinstance(obj["l"], int):
+            out.add(obj["l"])
+        for v in obj.values():
+            _locals_in(v, out)
+    elif isinstance(obj, list):
+        for v in obj:
+            _locals_in(v, out)
+    return out
+
+
+def d4b_score_is_per_link(ctx):
+    """A re-run on the same state gives the same answer only if a link's score is a function of that link and of the call's
+    arguments: no variable carried from one iteration of the scoring loop to the next may flow into it (data or control).  The
+    running best, its index and the previous link's score are carried, but are compared with the score, not used to compute it."""
+    f = ctx.fn(ENH, "D4")
+    if not f:
+        return
+    lp = _loop.cache.get(("C11", ctx.w.uid))
+    if lp is None:
+        lp = Loop(ctx, f)
+        _loop.cache[("C11", ctx.w.uid)] = lp
+    if not lp.ok:
+        ctx.chk.missing("D4", "enhanced selector: scoring loop", lp.why)
+        return
+    cur, best, bidx, score = _roles(ctx, f)
+    if score is None:
+        ctx.chk.missing("D4", "enhanced selector: the competing score", "")
+        return
+    cfg = ctx.cfg(f)
+    body = set(lp.lp["body"])
+    head = lp.lp["head"]
+    defs_in = {}
+    defs_out = set()
+    for bi, blk in enumerate(f.blocks):
+        if blk["cleanup"]:
+            continue
+        sites = []
+        for si, st in enumerate(blk["stmts"]):
+            if st["k"] == "assign" and not st["p"]["proj"]:
+                sites.append((st["p"]["l"], st["rv"]))
+        t = blk["term"]
+        if t["k"] == "call" and not t["dest"]["proj"]:
+            sites.append((t["dest"]["l"], {"f": t["f"] if "id" not in t["f"] else None, "args": t["args"]}))
+        for (l, src) in sites:
+            if bi in body:
+                defs_in.setdefault(l, []).append((bi, src))
+            else:
+                defs_out.add(l)
+    carried = set(l for l in defs_in if l in defs_out and l > f.argc)
+    switches = [(bi, _locals_in(f.blocks[bi]["term"].get("d"), set())) for bi in body if f.blocks[bi]["term"]["k"] == "switch" and not f.blocks[bi]["cleanup"]]
+    same_iter = {}
+    deps = set()
+    work = [score]
+    why = {}
+    while work:
+        l = work.pop()
+        for (bi, src) in defs_in.get(l, []):
+            used = _locals_in(src, set())
+            for (sb, sl) in switches:
+                if sb not in same_iter:
+                    same_iter[sb] = cfg.reach_from(sb, {head})
+                if bi in same_iter[sb] and sb != bi:
+                    used |= sl
+            for u in used:
+                if u not in deps:
+                    deps.add(u)
+                    why[u] = l
+                    work.append(u)
+    bad = sorted(l for l in deps if l in carried)
+    names = [f.names.get(l, "_%d" % l) if isinstance(f.names, dict) else "_%d" % l for l in bad]
+    ctx.chk.floor("D4", "locals the score depends on", len(deps), 5)
+    ctx.chk.ob("D4", "a link's score depends on no variable carried over from the links scored before it", not bad,
+               "carried into the score: %s (carried locals: %d, dependence set: %d)" % (names, len(carried), len(deps)), key="D4:score-is-per-link")
+
+
 QLO, QHI = 0.35, 1.1 * 1.03
 
 
@@ -481,7 +558,7 @@ def d5_factor_ranges(ctx):
         ctx.chk.ob("D5", "in-flight cap: no arithmetic panic", not bad, "; ".join("%s %s" % (o.kind, o.detail) for o in bad[:3]), key="D5:no-panic:cap")
 
 
-RULES = [d1_hysteresis, d2_gates, d3_score_formula, d4_determinism, d5_factor_ranges]
+RULES = [d1_hysteresis, d2_gates, d3_score_formula, d4_determinism, d4b_score_is_per_link, d5_factor_ranges]
 
 
 def run(ctx):
